@@ -9,11 +9,15 @@ from .c03 import read_maps
 REFUSALS = ("NotImplementedError",)
 
 
-def cval(z):
+def cval(z, fine=None, tol=1e-6):
     if hasattr(z, "item"):
         z = z.item()
     z = complex(z)
-    a, b = dyadic(z.real), dyadic(z.imag)
+    if fine:
+        from ..backend import dyadic_fine
+        a, b = dyadic_fine(z.real, fine, tol), dyadic_fine(z.imag, fine, tol)
+    else:
+        a, b = dyadic(z.real), dyadic(z.imag)
     return [a if a is not None else [7, 20], b if b is not None else [7, 20]]
 
 
@@ -122,6 +126,11 @@ class C07(Prop):
                 yield {"k": "expect", "rows": rows, "r": r, "obs": obs}
                 yield {"k": "expect_poly", "kind": "poly", "rows": rows, "r": r, "terms": self._poly(n, rng, 6) + [{"p": rows[n - 1][:-1] + [1], "c": [2, -1]}] +
                        [{"p": w[:-1] + [(w[-1] + rng.randrange(4)) % 4], "c": [rng.randrange(-3, 4), rng.randrange(-3, 4)]} for w in ge[:5]], "e": 2}
+                # the same kind of polynomial with very small coefficients (k / 2^20: below any pruning tolerance one might
+                # be tempted to apply; exactly representable in single precision)
+                yield {"k": "expect_poly", "kind": "poly", "rows": rows, "r": r, "terms": [{"p": w[:-1] + [(w[-1] + 2 * rng.randrange(2)) % 4], "c": [rng.choice((1, -1, 3, 5)), 0]} for w in (ge[:4] or rows[r:n][:2])] +
+                       [{"p": rows[n - 1][:-1] + [1], "c": [0, 3]}], "e": 20, "fine": 30}
+                yield {"k": "expect_poly", "kind": "monomial" , "rows": rows, "r": r, "terms": [{"p": (ge[0] if ge else rows[n - 1]), "c": [3, 0]}], "e": 22, "fine": 30, "pkg": "py"}
                 n2, m2, _e2 = self.big[(bi * 5 + 1) % len(self.big)]
                 if n2 == n:
                     yield {"k": "overlap", "rows": rows, "r": r, "other": {"rows": ins_to_state(m2), "r": rng.randrange(n + 1)}}
@@ -154,7 +163,7 @@ class C07(Prop):
             w[rng.randrange(0, 5)] = rng.randrange(0, 4)
             terms.append({"p": w, "c": [1, 1]})
         obs = [t["p"][:-1] + [rng.choice((0, 2))] for t in terms]
-        yield {"k": "expect", "rows": rows, "r": r, "obs": obs, "pkg": "py"}
+        yield {"k": "expect", "rows": rows, "r": r, "obs": obs}
         yield {"k": "expect_poly", "kind": "poly", "rows": rows, "r": r, "terms": terms, "e": 1, "pkg": "py"}
         yield {"k": "expect_poly", "kind": "poly", "rows": rows, "r": r, "terms": terms[:5], "e": 0, "pkg": "torch"}
 
@@ -208,7 +217,9 @@ class C07(Prop):
                     obs = be.paulialg.PauliMonomial(P.g, P.p).set_c(complex(*terms[0]["c"]) / den)
                 else:
                     obs = be.poly([t["p"] for t in terms], [complex(*t["c"]) / den for t in terms])
-                rec["val"] = cval(S.expect(obs))
+                # (single precision: powers of i carry ~1e-7 relative noise; in units of 2^-30 that is far below 0.05,
+                # while a dropped term of size 2^-20 is 1024 units)
+                rec["val"] = cval(S.expect(obs), scn.get("fine"), 0.05 if be.name == "torch" else 1e-6)
                 rec["pre1"] = be.p_state(S)
             except Exception as e:
                 rec["exc"] = _exc(e)
